@@ -31,6 +31,11 @@ CHECKS = {
         "note": "As C10; bounded: a starvation that needs more than the bounded history to manifest is outside.",
         "technique": "symbolic execution of the real scheduler (CrossHair + z3), no-lost-wake-up oracle at quiescence; native replay",
     },
+    "C13": {
+        "text": "(a) The real MatchingBindingFilter built from a solver-owned rule structure (deployment, service, 0-2 port predicates, match strings) applied to solver-owned targets and job inputs returns, AS A LIST IN DECLARED ORDER, exactly the targets some rule admits, and raises exactly when none is; Target identity hashes are solver-chosen and the name `set` inside the filter module is bound to a model of CPython's hash-slot iteration order, so any dependence on hash order is exposed. (b) The real DefaultScheduler on two deployments declared as ordered targets (with and without the matching filter in front), symbolic capacities/requirements and solver-chosen operation suffixes, places every granted job on the first declared target admissible at grant time.",
+        "note": "Small symbolic domains (3 deployments, 3 services, 2 ports, 4 strings incl. an int cast); (b) as C10, checks a wake-up grant only when it is the single grant of the operation. The defect found by this check (list(set(...)) losing the declared order) was repaired in /repo commit d21207b.",
+        "technique": "symbolic execution of the real filter and scheduler (CrossHair + z3) with solver-owned rule structures, identity hashes and quantities; native replay",
+    },
     "C14": {
         "text": "Hardware/Storage arithmetic checked by two engines. (1) CrossHair on the real classes over every storage-map shape with 0..3 (quick) / 0..4 (thorough) storages per Hardware over <=3 mount points (keys equal to, aliasing or crossing mount points), all amounts unbounded non-negative integers: a+b carries the per-mount sums and (a+b)-b restores a's amounts without touching the operands; normalized() is in normal form, idempotent, total-preserving; a.satisfies(b) is True exactly when cores, memory and every mount point of b are <= in a and never True when a lacks a mount point of b; | max-merges sizes. (2) smtx: the same source translated AST->SMT with amounts as unbounded Reals, every law proved unsat by z3 and cvc5, the encoding validated against the real functions on >=200 concrete inputs per run. (3) Three QF_FP lemmas (both solvers): an exact double sum round-trips; integer-valued doubles add/subtract exactly.",
         "note": "Fractional IEEE doubles are covered only by the envelope lemmas ((a+b)-b != a for 0.1/0.2 is inherent to float, not a finding). Default '/' volume's 0.0 replaced by 0 under CrossHair; repr stub on the error-message path of satisfies(); shapes up to renaming of mount points; a-b on b-only mounts and cores/memory of | are outside. smtx is a hand-written evaluator of a Python subset (differentially validated each run).",
@@ -41,6 +46,11 @@ CHECKS = {
         "text": "Bounded symbolic check of the real DirectedGraph/DirectedAcyclicGraph (and GraphMapper on top) against a ~20-line reference graph: the initial DAG is a symbolic adjacency on 4 (quick) / 5 (thorough) nodes, followed by enumerated short operation skeletons over add/remove_nodes(prune symbolic)/replace/promote_to_source with every adjacency bit and flag symbolic; after every operation successors and predecessors mirror each other and equal the reference, removed-node sets, replace and promote semantics match the statement.",
         "note": "Graphs of <=5 nodes (12-node graphs outside), skeletons <=2 (quick) / 3 (thorough) operations; edge cases the statement does not fix (absent nodes, self loops) excluded by precondition and listed in the evidence assumptions.",
         "technique": "symbolic execution of the real graph classes (CrossHair + z3) over symbolic adjacency matrices with a reference model; native replay",
+    },
+    "C21": {
+        "text": "Bounded symbolic check of the real DefaultDataManager/_RemotePathMapper over every history of up to 3 operations (5 for selected relation histories) from register_path / invalidate_location / register_relation, with solver-chosen location, path (tree of depth <=3 plus root), data type and related pair, on 1-3 locations (same/different deployment, local, one wrapping another through a mount). After the last operation every (location, path) pair is queried: registration makes the path and all ancestor directories available on that location only; invalidation empties the path and everything registered beneath it there and changes no DataLocation of any other location; re-registration restores; relating two registrations makes each reported at the other's path; get_source_location returns a non-INVALID PRIMARY member of get_data_locations whenever one exists.",
+        "note": "Checkpoint manager and connector lookup are stubbed; relation operands are the registry's current entries; link loops, never-seen paths and remove_location are outside; the model is one-sided for related copies on the same location. The defect found by this check (stale valid_paths after invalidating related paths) was repaired in /repo commit 997b4e0.",
+        "technique": "symbolic execution of the real registry code (CrossHair + z3) over generator-enumerated op skeletons with solver-owned operands, one-sided reference model; native replay",
     },
     "C28": {
         "text": "The real WorkflowConfig constructor and get_binding_config run on a StreamFlow-file mapping whose shape is owned by the solver (number of bindings, each binding's path from alphabet indexes with depth 0-3, step/port kind, queried step path, wraps index of each deployment incl. cycles and self references, workdir presence): the targets returned for a step are exactly those of the step binding on the longest component-wise prefix path (port bindings ignored, local target when nothing matches); the workdir is the target's own, else the first along the wraps chain, else the default; the constructor raises WorkflowDefinitionException iff the wraps graph has a cycle.",
